@@ -414,6 +414,9 @@ pub fn run_c08(rep: &mut Report, thorough: bool) {
         }
         let nmax = if thorough { fr.len() } else { fr.len().min(90) };
         crate::props::pairs::pair_histories(rep, &s.cfg, "pair-histories", &fr[..nmax]);
+        if thorough {
+            crate::props::pairs::triple_histories(rep, &s.cfg, "triple-histories", &fr[..fr.len().min(110)]);
+        }
     }
     // (iv) collision stage
     if thorough {
